@@ -1400,6 +1400,8 @@ package gocql
 // the caller's own tls.Config is left untouched (a clone is modified)
 //@   ensures sslOpts.Config == old(sslOpts.Config) && sslOpts.EnableHostVerification == old(sslOpts.EnableHostVerification)
 //@   ensures old(sslOpts.Config) != nil ==> sslOpts.Config.InsecureSkipVerify == old(sslOpts.Config.InsecureSkipVerify) && same(sslOpts.Config.ServerName, old(sslOpts.Config.ServerName)) && (result1 == nil ==> result0 != sslOpts.Config)
+// ... including its trust anchors: the CA certificates of CaPath are not added to the caller's own pool
+//@   before[C20] AppendCertsFromPEM: old(sslOpts.Config) == nil || arg0 != old(sslOpts.Config.RootCAs)
 // unreadable / unparsable CA or key pair files are errors, and given paths are actually used
 //@   ensures ReadFile_calls == 1 && ReadFile_ret1 != nil ==> result1 != nil
 //@   ensures AppendCertsFromPEM_calls == 1 && !AppendCertsFromPEM_ret0 ==> result1 != nil
